@@ -79,6 +79,52 @@ pub fn e2(id: &str) -> Option<E2Def> {
                 "kill points before the initial setup has finished are judged only by: reopen succeeds or the directory holds no acknowledged data",
             ],
         },
+        "C03" => {
+            let mut p = e2_profile_base();
+            p.max_ops = 14;
+            p.w.batch = 30;
+            p.w.tx = 12;
+            p.w.write = 14;
+            p.w.clear = 4;
+            p.w.reopen = 4;
+            p.w.ks_admin = 1;
+            p.hot_keys = false;
+            E2Def {
+                id: "C03",
+                mode: Mode::Torn,
+                profile: p,
+                quick_programs: 64,
+                thorough_programs: 1600,
+                quick_points: 0,
+                rule: "programs = generated prefix (batches, transactions, single writes, clears, rotations/flushes, optionally a reopen so that the journal is in append mode) + a final batch/transaction of 1-12 items over 1-3 keyspaces (values on both sides of the compression threshold and of the 8 KiB journal buffer, tombstones, journal compression on/off); the final batch's journal bytes are located from the interposer log; the journal is then cut at EVERY byte offset of that batch (sampled if > 1500 B in quick / > 20000 B in thorough), once zero padded and once truncated, and the real recovery code runs on each image: recovered state must be exactly S_(m-1) (all earlier batches, nothing of the torn one), then appends to the repaired journal must be recoverable; plus real SIGKILL torn writes at random split points of the final write() calls; non-trivial = cut strictly inside a batch of >= 2 items; distinct by (program hash, offset, padding mode)",
+                assumptions: vec![
+                    "a journal ending at byte x is produced by cutting the cleanly closed image at x (identical to a crash during the final append, since the final batch is the last operation); real torn kills cross-check this",
+                    "final batches larger than the enumeration limit are sampled, not exhaustive",
+                ],
+            }
+        }
+        "C09" => {
+            let mut p = e2_profile_base();
+            p.no_manual_persist = false;
+            p.w.persist = 14;
+            p.w.batch = 12;
+            p.w.reopen = 2;
+            p.w.ks_admin = 1;
+            p.max_ops = 20;
+            E2Def {
+                id: "C09",
+                mode: Mode::PowerLoss,
+                profile: p,
+                quick_programs: 320,
+                thorough_programs: 1600,
+                quick_points: 40,
+                rule: "programs with persist(Buffer|SyncData|SyncAll) at generated positions, batches/transactions with explicit durability, journal rotations (position scale), reopen (clean drop); two thirds run under the power-loss adversary: SIGKILL before a tracked call after the first sync point, then every journal byte written after that file's last successful fsync/fdatasync is reverted (zeroed inside the pre-allocated region, truncated beyond), then real recovery: every operation acknowledged before the last acknowledged sync point (sync persist, sync-durability commit, journal rotation, clean drop) must be present and the journal-derived content must be a prefix; one third uses manual journal persist (database and keyspaces) with a plain process crash: everything before the last acknowledged persist(Buffer)/flush point must survive. Independently the interposer log of the clean run is checked: at every acknowledged sync point no journal byte is unsynced, rotation syncs the old journal before the new one is created, clean drop leaves nothing unsynced. non-trivial = crash after >=1 sync point with >=1 acknowledged later write and (power loss) >0 bytes actually reverted; distinct by (program hash, kill index)",
+                assumptions: vec![
+                    "power loss is modelled over the syscall log: unsynced journal DATA is lost, directory operations and table files persist (the adversary the property names)",
+                    "crash points are libc-call boundaries",
+                ],
+            }
+        }
         _ => return None,
     })
 }
@@ -88,7 +134,17 @@ pub struct E2Replay {
     pub property: String,
     pub case: Case,
     pub inject: Inject,
+    #[serde(default)]
+    pub cut: Option<Cut>,
+    #[serde(default)]
+    pub extra: Option<Value>,
     pub failure: Value,
+}
+
+#[derive(Serialize, Deserialize, Clone, Debug)]
+pub struct Cut {
+    pub at: u64,
+    pub mode: u8,
 }
 
 pub struct CountRun {
@@ -276,6 +332,11 @@ fn shrink_crash(sb: &Sandbox, case: &Case, budget: Duration) -> (Case, Inject, S
 }
 
 pub fn shard_e2(def: &E2Def, tier: &str, seed: u64, shard: u32, programs: u32) -> ShardOut {
+    match def.mode {
+        Mode::Torn => return crate::e2torn::shard_torn(def, tier, seed, shard, programs),
+        Mode::PowerLoss => return crate::e2power::shard_power(def, tier, seed, shard, programs),
+        _ => {}
+    }
     silence_panics();
     let thorough = tier == "thorough";
     let base = scratch_root().join(format!("e2s{shard}"));
@@ -304,6 +365,8 @@ pub fn shard_e2(def: &E2Def, tier: &str, seed: u64, shard: u32, programs: u32) -
                     property: def.id.into(),
                     case: case.clone(),
                     inject: Inject::default(),
+                    cut: None,
+                    extra: None,
                     failure: json!({"msg": format!("clean close + reopen: {e}")}),
                 })
                 .unwrap(),
@@ -350,6 +413,8 @@ pub fn shard_e2(def: &E2Def, tier: &str, seed: u64, shard: u32, programs: u32) -
                             property: def.id.into(),
                             case: c2,
                             inject: inj,
+                            cut: None,
+                            extra: None,
                             failure: json!({"msg": msg, "original_msg": e}),
                         })
                         .unwrap(),
@@ -371,6 +436,12 @@ pub fn replay_e2(def: &E2Def, rp: &E2Replay) -> Option<String> {
     silence_panics();
     let base = scratch_root().join("e2replay");
     let sb = Sandbox::new(&base);
+    if let Some(c) = &rp.cut {
+        return crate::e2torn::replay_cut(&rp.case, c.at, c.mode);
+    }
+    if def.mode == Mode::PowerLoss {
+        return crate::e2power::replay_power(rp);
+    }
     let r = (|| -> Result<(), String> {
         let cr = count_run(&sb, &rp.case)?;
         match rp.inject.kill {
